@@ -30,7 +30,7 @@ FamilyDocs ==
    \* keys that are identical up to and including an embedded 0x00, and an empty bytes value
    <<64, 20, 3, 107, 0, 97, 16, 1, 20, 3, 107, 0, 98, 16, 2, 65>>, <<64, 20, 3, 0, 97, 98, 68, 20, 2, 0, 98, 69, 65>>,
    <<64, 20, 1, 97, 24, 0, 20, 1, 98, 20, 0, 65>>} \cup
-  {ObjNest(d) : d \in {1, 2, 9, 10, 11, 12}} \cup
+  {ObjNest(d) : d \in {1, 2, 9, 10, 11, 12, 30}} \cup
   {Big(L) : L \in {985, 990, 991, 992, 993, 994, 1000, 1300}} \cup {Big2(L) : L \in {970, 975, 976, 977, 978, 979, 980, 985, 990, 995, 1000, 1010, 2000}}
 
 R0 == [done |-> FALSE, ok |-> FALSE, ref |-> FALSE, same |-> TRUE, back |-> TRUE]
@@ -61,10 +61,14 @@ Check(closeIt) ==
   /\ LET a == F!Parse(buf', "O", 10)
          d == CI!DeserPtr(buf')
          vtA == IF a.ok THEN F!ToVT(buf', a.node) ELSE [t |-> "none", v |-> <<>>, kids |-> <<>>]
+         \* a value tree deeper than the wrapper's own parser reads can still be BUILT with put(): the replayer
+         \* does so and calls serialize() and toStr() on it (C16: they return)
+         a64 == IF a.ok THEN a ELSE F!Parse(buf', "O", 64)
      IN /\ res' = [done |-> TRUE, ok |-> d.ok, ref |-> a.ok,
                    same |-> (a.ok /\ d.ok) => d.vt = vtA,
                    back |-> (a.ok /\ d.ok) => CI!Serialize(d.vt) = buf']
         /\ (EmitOn => PrintT("CBEH " \o (IF buf' = <<>> THEN "-" ELSE F!HexStr(buf')) \o " | ok=" \o (IF a.ok THEN "1" ELSE "0")
+                             \o " deep=" \o (IF ~a.ok /\ a64.ok THEN Dump(F!ToVT(buf', a64.node)) ELSE "x")
                              \o " tree=" \o (IF a.ok THEN Dump(vtA) ELSE "x")
                              \o " text=" \o (IF a.ok /\ KnownD(vtA) THEN F!HexStr(R!RenderVT(vtA)) ELSE "x")))
 Next == Add \/ \E c \in BOOLEAN : Check(c)
